@@ -283,6 +283,14 @@ func checkMetadataAtPIT(r *runner) []Violation {
 	if !r.sc.Knobs.RealSQL {
 		return nil
 	}
+	r.w.mu.Lock()
+	jumped := r.w.fired[FClockJump] > 0
+	r.w.mu.Unlock()
+	if jumped {
+		// the database clock was moved during this run (thorough tier): the dates of the history are then not in
+		// the order of the writes, and "as it was at t" has no reading to compare with
+		return nil
+	}
 	var vs []Violation
 	prop := r.sc.Property
 	// a version of a row: the metadata it carries and the instants between which it was written (creation: the
